@@ -121,4 +121,22 @@ def decodeBody : Nat → Bytes → List Bytes → List Bytes → List Bytes
 def decode (file : Bytes) : List Bytes :=
   decodeBody (file.length / 8 + 1) (file.drop 32) [] []
 
+/-- README walk with CRC validation: going through the frames from the header, every commit frame must carry the
+    CRC-32C of exactly the bytes since the previous commit frame (since the start of the file for the first one).
+    Result: (number of commit frames that check, entries they cover, offset of the first commit frame that does not
+    check — 0 when the walk ended at free space or at a frame that does not parse) -/
+def walkBody : Nat → Bytes → Nat → Nat → Nat → Nat → Nat → Nat × Nat × Nat
+  | 0, _, _, _, commits, covered, _ => (commits, covered, 0)
+  | fuel+1, file, off, crcStart, commits, covered, pending =>
+    match parseFrame (file.drop off) with
+    | none => (commits, covered, 0)
+    | some (t, v, _, _) =>
+      if t = 1 then walkBody fuel file (off + 8 + roundUp8 v) crcStart commits covered (pending + 1)
+      else if t = 2 then walkBody fuel file (off + 8 + roundUp8 v) crcStart commits covered pending
+      else
+        if (crc32c ((file.drop crcStart).take (off - crcStart))).toNat = v then
+          walkBody fuel file (off + 8) (off + 8) (commits + 1) (covered + pending) 0
+        else (commits, covered, off)
+
+def walk (file : Bytes) : Nat × Nat × Nat := walkBody (file.length / 8 + 1) file 32 0 0 0 0
 end RaftWal.Spec
